@@ -204,6 +204,7 @@ fn reset_answers() {
         ENV_PERMITS_RETURNED = 0;
         ENV_CMD = 0;
         ENV_CMDS = 0;
+        ENV_QUEUE_FULL = false;
     }
 }
 /// (what, how often) was answered on the reply channel of kind `slot`; `marked`: the one whose
@@ -314,7 +315,7 @@ pub(crate) const CMD_CANCEL: u8 = 4;
 pub(crate) const CMD_OTHER: u8 = 9;
 impl EnvCmdTx {
     // not an `async fn` for the same reason as NoClient::output
-    fn send(&self, cmd: PolicyCmd) -> std::future::Ready<Result<(), EnvSendErr>> {
+    fn send(&self, cmd: PolicyCmd) -> EnvSend {
         let code = match &cmd {
             PolicyCmd::Run(..) => CMD_RUN,
             PolicyCmd::InternalConstsSent => CMD_INTERNAL_CONSTS_SENT,
@@ -327,7 +328,16 @@ impl EnvCmdTx {
             ENV_CMDS += 1;
         }
         std::mem::forget(cmd);
-        std::future::ready(Ok(()))
+        EnvSend
+    }
+}
+/// enqueuing a command: ready at once, or pending for good while the actor's queue is full
+pub(crate) struct EnvSend;
+static mut ENV_QUEUE_FULL: bool = false;
+impl std::future::Future for EnvSend {
+    type Output = Result<(), EnvSendErr>;
+    fn poll(self: std::pin::Pin<&mut Self>, _cx: &mut std::task::Context<'_>) -> std::task::Poll<Self::Output> {
+        if unsafe { ENV_QUEUE_FULL } { std::task::Poll::Pending } else { std::task::Poll::Ready(Ok(())) }
     }
 }
 
@@ -1136,7 +1146,9 @@ macro_rules! mpc_result {
         fn $name() {
             reset_answers();
             let channel = Channel { client: NoClient, party: 0, receivers: Vec::new() };
-            seg_sc_mpc_result(policy_with_output($has_out), channel, $output, EnvCompiled, EnvCmdTx);
+            let (cancel, cancelled) = (Arc::new(Notify::new()), Arc::new(Notify::new()));
+            seg_sc_mpc_result(policy_with_output($has_out), channel, $output, EnvCompiled, EnvCmdTx, &cancel, &cancelled);
+            std::mem::forget((cancel, cancelled));
             let (outputs, out_err, cmd, cmds) = unsafe { (ENV_OUTPUTS, ENV_OUTPUT_WAS_ERR, ENV_CMD, ENV_CMDS) };
             assert!(outputs == $outputs, "C13:mpc-task:output-destination-is-sent-exactly-one-notification-if-there-is-one-to-send");
             assert!(outputs == 0 || out_err == $is_err, "C13:mpc-task:the-notification-is-the-result-on-success-and-the-error-on-failure");
@@ -1268,7 +1280,7 @@ macro_rules! task_cancel_arm {
             unsafe {
                 ENV_ACKED_BEFORE_OUTPUT = false;
             }
-            seg_sc_task_cancel_arm(EnvChannel { client: AckClient { ack: Arc::clone(&cancelled) } }, policy_with_output($has_out), &cancel, &cancelled);
+            seg_sc_task_cancel_arm(EnvChannel { client: AckClient { ack: Arc::clone(&cancelled) } }, policy_with_output($has_out), &cancel, &cancelled, EnvCmdTx);
             let (outputs, out_err, early) = unsafe { (ENV_OUTPUTS, ENV_OUTPUT_WAS_ERR, ENV_ACKED_BEFORE_OUTPUT) };
             assert!(outputs == $has_out as u8 && (!$has_out || out_err), "C15:task:destination-is-sent-exactly-one-cancelled-notification-if-there-is-one");
             assert!(!early, "C15:task:acknowledges-only-after-the-notification-was-sent");
@@ -1307,3 +1319,28 @@ fn c17_run_entry_keeps_the_permit() {
     kani::cover!(true, "reachable");
     std::mem::forget(st);
 }
+
+/// C15 - once the task has sent its one notification (result or error) nothing may follow: the
+/// task's mpc future must be finished with that, so that the select! cannot switch to the
+/// cancel arm afterwards (which would send Cancelled as a second notification). Environment:
+/// the actor's command queue is full, so enqueuing anything would wait.
+macro_rules! nothing_after_the_notification {
+    ($name:ident, $output:expr) => {
+        #[kani::proof]
+        #[kani::unwind(5)]
+        #[kani::stub(std::fmt::format, no_format)]
+        #[kani::stub(std::collections::hash_map::RandomState::new, env_random_state)]
+        fn $name() {
+            reset_answers();
+            unsafe { ENV_QUEUE_FULL = true };
+            let channel = Channel { client: NoClient, party: 0, receivers: Vec::new() };
+            let finished = seg_sc_mpc_result_then(policy_with_output(true), channel, $output, EnvCompiled, EnvCmdTx);
+            let outputs = unsafe { ENV_OUTPUTS };
+            assert!(outputs == 1, "C15:task:the-notification-is-sent-whatever-the-state-of-the-command-queue");
+            assert!(finished.is_some(), "C15:task:no-await-behind-the-notification-at-which-a-cancel-could-still-win");
+            kani::cover!(true, "reachable");
+        }
+    };
+}
+nothing_after_the_notification!(c15_nothing_can_follow_the_result, Ok(vec![true]));
+nothing_after_the_notification!(c15_nothing_can_follow_the_error, Err(polytune::Error::EmptyMsg));
